@@ -206,11 +206,11 @@ def run_neutral(case, ctx):
         a = G.run_parse(plain, text)
         b = G.run_parse(withm, text)
         if a.kind != b.kind:
-            ctx.fail("priorities-change-the-language", plain=a.kind, with_meta=b.kind, **info)
+            ctx.fail("priorities-change-the-language", plain_outcome=a.kind, with_meta_outcome=b.kind, **info)
         if a.kind == "ok":
             ta, tb = T.canon(a.value), T.canon(b.value)
             if ta != tb:
-                ctx.fail("priorities-change-the-tree", plain=repr(ta), with_meta=repr(tb), **info)
+                ctx.fail("priorities-change-the-tree", plain_tree=repr(ta), with_meta_tree=repr(tb), **info)
             g = G.run_parse(glr, text)
             if g.kind != "ok":
                 ctx.fail("priorities-change-the-language", parser="GLR", **info)
